@@ -356,6 +356,60 @@ def compositions(tier, seed):
     return out
 
 
+# library blocks instantiated with port widths drawn independently ("all port widths" of the statement): i = input wire,
+# o = output wire (width drawn from 1,2,3,4,5,8), b = one-bit input, q = one-bit output; a constructor refusal is not a finding
+SWEEP = [
+    ('Xor2', 'iio'), ('Nand2', 'iio'), ('Nor2', 'iio'), ('And2', 'iio'), ('Or2', 'iio'), ('Not', 'io'), ('Buf', 'io'),
+    ('Mux2', 'biio'), ('Mux2', 'iiio'), ('BufEnable', 'ibo'), ('Repeat', 'bo'), ('AndBits', 'iq'), ('OrBits', 'iq'),
+    ('Equal', 'iiq'), ('Comparator', 'iiqqq'), ('Max2', 'iio'), ('Min2', 'iio'), ('Swap', 'iiboo'),
+    ('Add', 'iio'), ('Sub', 'iio'), ('Mul', 'iio'), ('Neg', 'io'), ('Abs', 'io'), ('Sign', 'iq'), ('SignExtend', 'io'), ('ZeroExtend', 'io'),
+    ('ShiftLeft', 'iio'), ('ShiftRight', 'iio'), ('RotateLeft', 'iio'), ('RotateRight', 'iio'), ('AddCarryIn', 'iiob'), ('SubBorrowIn', 'iiob'),
+    ('SignedAdd', 'iio'), ('SignedSub', 'iio'), ('SignedMul', 'iio'),
+    ('And', 'Lo'), ('Or', 'Lo'), ('Xor', 'Lo'), ('Nor', 'Lo'), ('ConcatenateMSBF', 'Lo'), ('ConcatenateLSBF', 'Lo'), ('Select', 'SLo'), ('OneHotMux', 'SLo'),
+    ('AnyEqual', 'iLq'), ('Mux', 'iMo'),
+    ('Reg', 'io'), ('Reg', 'ioi'), ('Reg', 'ioii'), ('TReg', 'io'), ('TReg', 'ioi'), ('Counter', 'bbo'), ('Counter', 'iio'), ('Latch', 'iob'), ('Latch', 'ioi'),
+]
+
+
+def width_sweep(tier, seed):
+    quick = tier == 'quick'
+    rnd = random.Random(1000 + seed)
+    out = []
+    for cname, sig in SWEEP:
+        cls = globals().get(cname) or getattr(py4hw, cname)
+        for k in range(3 if quick else 12):
+            n = rnd.choice([2, 3, 4])
+            toks = []
+            for ch in sig:
+                if ch == 'L':         # list of n inputs of independent widths
+                    toks.append(('L', [rnd.choice([1, 2, 3, 4, 5, 8]) for _ in range(n)]))
+                elif ch == 'S':       # list of n one-bit inputs
+                    toks.append(('L', [1] * n))
+                elif ch == 'M':       # list of 2 or 4 inputs (selection tree)
+                    toks.append(('L', [rnd.choice([1, 2, 3, 4, 5, 8]) for _ in range(rnd.choice([2, 4]))]))
+                else:
+                    toks.append(('i' if ch in 'ib' else 'o', 1 if ch in 'bq' else rnd.choice([1, 2, 3, 4, 5, 8])))
+
+            def b(s, cls=cls, toks=toks):
+                ins, outs, args = {}, {}, []
+                for j, (d, w) in enumerate(toks):
+                    if d == 'L':
+                        lst = []
+                        for k2, w2 in enumerate(w):
+                            wr = W(s, 'l%d_%d' % (j, k2), w2)
+                            ins['l%d_%d' % (j, k2)] = wr
+                            lst.append(wr)
+                        args.append(lst)
+                        continue
+                    wr = W(s, '%s%d' % (d, j), w)
+                    (ins if d == 'i' else outs)['%s%d' % (d, j)] = wr
+                    args.append(wr)
+                cls(s, 'dut', *args)
+                return {'ins': ins, 'outs': outs}
+            out.append(('width sweep %s %s' % (cname, ' '.join('%s%s' % (d, '/'.join(map(str, w)) if d == 'L' else w) for d, w in toks)), {'build': wrap_in_box(b, 'seq')}))
+    return out
+
+
 def cfgs(tier, seed=0):
     quick = tier == 'quick'
     out = []
@@ -368,6 +422,7 @@ def cfgs(tier, seed=0):
     for name, cfg in c09.cfgs(tier):
         out.append(('C09/' + name, {'build': wrap_in_box(cfg['build'], 'seq')}))
     out += extra_cfgs(tier)
+    out += width_sweep(tier, seed)
     out += compositions(tier, seed)
     return out
 
